@@ -15,7 +15,9 @@ THEOREMS = ["readVarint_consumes", "readVarint_writeVarint", "readKey_writeKey",
             "kad_request_encoding", "kad_request_roundtrip", "kad_find_node_roundtrip", "kad_put_value_roundtrip",
             "kad_get_record_roundtrip", "kad_find_node_response_roundtrip", "kad_put_value_response_roundtrip",
             "kad_get_value_response_roundtrip", "kad_add_provider_roundtrip", "kad_get_providers_request_roundtrip",
-            "kad_get_providers_response_roundtrip"]
+            "kad_get_providers_response_roundtrip",
+            "identify_no_panic", "identify_event_bounded", "identify_event_identity", "identify_own_roundtrip",
+            "identify_inbound_prefix"]
 RULE = ("valid protobuf encodings of every message kind (kademlia, identify, bitswap, noise handshake payload, public key) "
         "built by an independent Python encoder, then mutated (bit flips, truncation at every offset, splices, extreme length "
         "prefixes, overlong/overflowing varints, wrong wire types, unknown fields, groups nested up to and beyond the recursion "
@@ -24,7 +26,15 @@ RULE = ("valid protobuf encodings of every message kind (kademlia, identify, bit
         "default-valued nested messages, long repeated fields, non-ASCII strings; a few that are not values of the Rust types) "
         "are encoded by prost and by the model's generated encoder and compared byte for byte, then decoded and compared with "
         "the value (oracle); the library's own Kademlia encoders are compared byte for byte with the model's and "
-        "round-tripped through from_bytes. Non-trivial = input decodes successfully at the protobuf level with at least one "
+        "round-tripped through from_bytes. The identify protocol OBJECT (src/protocol/libp2p/identify.rs, real run() loop on a "
+        "paused clock, real Substream over an in-memory pipe): idout = answers on our outbound substream (valid messages over "
+        "an address pool with trailing /p2p of the remote, of us, of a third peer, relayed, leading /p2p, empty and invalid "
+        "addresses; payloads of 4095/4096/4097/8192 bytes; mutated payloads and frames; extreme, over-long and non-minimal "
+        "length prefixes) delivered in 1-4 chunks with pauses that stay below / reach / exceed the 10 s timeout, closed or reset "
+        "anywhere, one valid answer cut at every offset; idin = our own message for random configurations (0-200 protocols, "
+        "so that it exceeds the frame limit; listen/public address sets; peer connected or not) through carriers holding "
+        "0/1/5/100/2^20 unread bytes with reads and pauses (send timeout); idrt = our message fed, cut at a random offset, to "
+        "a second node's outbound handler. Non-trivial = input decodes successfully at the protobuf level with at least one "
         "field, or is rejected after at least one field was read, or an encoder produced bytes; distinct by SHA-256 of "
         "(op, observation)")
 TRUSTED_BASE = ["Lean 4.33 kernel", "axioms: propext, Classical.choice, Quot.sound only",
@@ -37,9 +47,17 @@ TRUSTED_BASE = ["Lean 4.33 kernel", "axioms: propext, Classical.choice, Quot.sou
                 "KademliaMessage::from_bytes / KademliaPeer::try_from / record_from_schema and of the nine KademliaMessage "
                 "encoders (Model/Wire/KadMessage.lean, KadEncoders.lean), tied by this differential run",
                 "adapters /repo/src/verif/c19*.rs, harness counting allocator, verif.py, checks/c19.py",
+                "hand-written model of identify's handlers Model/Wire/IdentifyProto.lean (on top of the C04 frame-reader model "
+                "and the generated Identify schema), tied by this differential run; the in-memory pipe of src/verif/io.rs and "
+                "tokio's paused clock stand for the transport and for time (whole seconds)",
                 "third-party parsers are parameters of the model and only sampled for panic/allocation: multiaddr, cid, "
                 "ed25519-dalek point decompression"]
-ASSUMPTIONS = ["frames handed to these decoders were already bounded by the substream codec (C04) / noise frame size (C02)",
+ASSUMPTIONS = ["frames handed to these decoders were already bounded by the substream codec (C04) / noise frame size (C02); for "
+               "identify the frame reader itself is part of the model (identify_event_bounded starts from raw substream bytes)",
+               "identify: what `Multiaddr::try_from` and the trailing component say about an address is a parameter (`info`); the "
+               "order of the listen addresses in our own message is the HashSet's (compared as a set); the peer of an identify "
+               "event is the peer the connection was authenticated for (C01) — identify.rs does not look at the message's "
+               "publicKey field, and the model says so",
                "allocation is measured as the peak of live heap bytes during the call (harness global allocator)",
                "round-trip theorems quantify over well-formed values (X.WF, decidable): what the Rust types guarantee — i32/u32 "
                "ranges, UTF-8 strings, lengths and nested encodings below 2^64; `encoded_len` is modelled as the length of the "
@@ -51,7 +69,13 @@ MANIFEST = {
             "value exists), allocation bounded by the input length for every schema (kad/identify/bitswap/noise/key_alloc_bound), "
             "number of peers taken from a message bounded by the replication factor, decode(encode m) = m for every well-formed "
             "value of every translated message (kad/identify/bitswap/noise_payload/public_key/webrtc_message_roundtrip), and "
-            "from_bytes-level round trips of the nine hand-written Kademlia encoders; tied to prost and to KademliaMessage by a "
+            "from_bytes-level round trips of the nine hand-written Kademlia encoders; for the identify protocol object (frame "
+            "reader + timeout + decoder + address filters + event): identify_no_panic (no bytes, fragmentation or timing make "
+            "the handler panic), identify_event_bounded (everything an IdentifyEvent holds on to is at most IDENTIFY_PAYLOAD_SIZE "
+            "bytes), identify_event_identity (peer = the connection's peer, reported listen addresses never name another peer, "
+            "the observed address never names anybody but us), identify_own_roundtrip (our own message, in any two-piece "
+            "fragmentation, yields exactly our configuration at the remote handler) and identify_inbound_prefix (a message above "
+            "the limit never reaches the wire); tied to prost and to KademliaMessage by a "
             "differential mutation fuzz of the decoders under catch_unwind with a counting allocator and a byte-for-byte "
             "comparison of the encoders. Partial: the internals of prost/multiaddr/cid are compared and sampled, not proved; "
             "other decoders of the property (multistream, frame lengths, peer ids, bitswap prefixes) are covered by "
